@@ -14,6 +14,7 @@ import (
 	"sort"
 	"strings"
 	"sync"
+	"sync/atomic"
 	"time"
 
 	"github.com/benbjohnson/litestream"
@@ -39,7 +40,7 @@ func init() {
 		Rule: "generated E-HIST histories (application writes incl. rollbacks with spilled frames, DDL, VACUUM, application checkpoints, open write txn / reader across litestream ops; DB.Sync, Replica.Sync, SyncAndWait, Checkpoint(mode), Snapshot, Compact(1..3), snapshot retention + EnforceRetentionByTXID(level>=1), Close with shutdown retry (ShutdownSyncTimeout 50ms) followed by Open of the same object or a new DB object) " +
 			"run over a fault-injecting ReplicaClient proxy around file.ReplicaClient. Each client call draws its fault from a seeded schedule: class {5%,30%,80%,bursts} x target {every op type, list, open, write, delete}; " +
 			"faults: list/open/write/delete fail-before-effect, write/delete fail-after-effect (performed, error returned), short-read of the upload reader at byte k (partial body handed to the store or dropped), download reader error / premature EOF at byte o. " +
-			"Oracles: after EVERY client call the level-0 directory of the store is contiguous 1..max with single-TXID files; after every history step Restore(latest) through a plain file client succeeds (once anything is stored), is a committed ledger state (integrity ok, no poison, dump hash == H_k) and k never regresses; " +
+			"Oracles: after EVERY client call the level-0 directory of the store is contiguous 1..max with single-TXID files, and at the start of and after every client call Replica.Pos() (what Store.SyncDB reports as ReplicatedTXID) does not exceed what the store holds; after every history step Restore(latest) through a plain file client succeeds (once anything is stored), is a committed ledger state (integrity ok, no poison, dump hash == H_k) and k never regresses; " +
 			"every nil SyncAndWait / Close has every level-0 file <= db.Pos() in the store and restores byte-identical (masked) to the source; after faults stop SyncAndWait succeeds within 3 tries, further writes replicate, restore == source. " +
 			"distinct = hash(config, schedule, op sequence); non-trivial = faults of >=2 different kinds were injected into WriteLTXFile calls",
 		Assumptions: []string{"file replica client only (no network); faults are injected at the ReplicaClient interface", "L0 retention is off (L0Retention=24h) so that the level-0 listing must start at 1", "ledger dump hash identifies a committed state (sha256)", "ltx decoder/LZ4 trusted"},
@@ -127,15 +128,49 @@ func runCase(run *vf.Run, raw json.RawMessage, dir string) *vf.Result {
 		log   []string
 		evals int
 		gap   string
+		ahead string
+	}
+	var cur atomic.Pointer[litestream.DB] // the litestream.DB object currently in use
+	cur.Store(e.LS)
+	// Replica.Pos() is what Store.SyncDB / the /sync endpoint report as
+	// ReplicatedTXID, also while an upload is outstanding: whenever it is read
+	// (at the start of and after each client call) every level-0 file up to it
+	// must already be in the store.
+	posAhead := func(when string, c Call, max int) string {
+		ls := cur.Load()
+		if ls == nil || ls.Replica == nil {
+			return ""
+		}
+		if pos := int(ls.Replica.Pos().TXID); pos > max {
+			return fmt.Sprintf("%s client call {%s}: Replica.Pos() (reported as ReplicatedTXID) is %d but the store holds contiguous level-0 files only up to %d", when, c, pos, max)
+		}
+		return ""
+	}
+	px.InFlight = func(c Call) {
+		max, _ := l0Contiguous(e.RepPath)
+		ahead := posAhead("during", c, max)
+		cb.Lock()
+		defer cb.Unlock()
+		cb.evals++
+		if ahead != "" && cb.ahead == "" {
+			cb.ahead = ahead
+		}
 	}
 	px.AfterCall = func(c Call) {
-		_, bad := l0Contiguous(e.RepPath)
+		max, bad := l0Contiguous(e.RepPath)
+		ahead := ""
+		if bad == "" {
+			ahead = posAhead("after", c, max)
+		}
 		cb.Lock()
 		defer cb.Unlock()
 		cb.log = append(cb.log, "  client "+c.String())
-		cb.evals++
+		cb.evals += 2
 		if bad != "" && cb.gap == "" {
 			cb.gap = fmt.Sprintf("after client call {%s}: %s", c, bad)
+		}
+		if ahead != "" && cb.ahead == "" {
+			cb.ahead = ahead
 		}
 	}
 	gapReported := false
@@ -146,8 +181,12 @@ func runCase(run *vf.Run, raw json.RawMessage, dir string) *vf.Result {
 			e.Logf("%s", l)
 		}
 		res.Evals += cb.evals
-		res.Count("client_calls_checked", cb.evals)
+		res.Count("client_call_checks", cb.evals)
 		cb.log, cb.evals = nil, 0
+		if cb.ahead != "" && !gapReported {
+			gapReported = true
+			res.Violate("replicated-position-ahead-of-store", "%s [%s; %s]", cb.ahead, s.Sched, s.Cfg)
+		}
 		if cb.gap != "" && !gapReported {
 			gapReported = true
 			res.Violate("l0-gap-after-client-call", "%s [%s; %s]", cb.gap, s.Sched, s.Cfg)
@@ -270,6 +309,7 @@ func runCase(run *vf.Run, raw json.RawMessage, dir string) *vf.Result {
 			res.HarnessErr = "reopen litestream: " + err.Error()
 			return false
 		}
+		cur.Store(e.LS)
 		return true
 	}
 
